@@ -37,8 +37,37 @@ func (e *Engine) nilCheck(st *State, p Ptr, what string) {
 }
 
 // load reads a value of type t at p.
+// narrow shrinks the candidate range of a symbolic index over a large array to the feasible
+// maximum (binary search with the solver), so that ite chains stay small.
+func (e *Engine) narrow(st *State, p Ptr) Ptr {
+	if len(p.Sym) != 1 || p.Sym[0].N <= 48 {
+		return p
+	}
+	s := p.Sym[0]
+	key := s.Idx.ID
+	if st.narrowCache == nil {
+		st.narrowCache = map[int]int{}
+	}
+	mx, ok := st.narrowCache[key]
+	if !ok {
+		v, ok2 := e.maxValue(st, s.Idx, uint64(s.N-1))
+		if !ok2 {
+			return p
+		}
+		mx = int(v)
+		st.narrowCache[key] = mx
+	}
+	if mx+1 < s.N {
+		np := p
+		np.Sym = []SymIdx{{Idx: s.Idx, Stride: s.Stride, N: mx + 1}}
+		return np
+	}
+	return p
+}
+
 func (e *Engine) load(st *State, p Ptr, t types.Type) Value {
 	e.nilCheck(st, p, "load")
+	p = e.narrow(st, p)
 	o := e.obj(st, p.Obj)
 	if o == nil {
 		e.unsupported("load from unknown object %d", p.Obj)
@@ -199,6 +228,7 @@ func (e *Engine) iteRead(cells []Value, base int, s SymIdx) *smt.Term {
 
 func (e *Engine) store(st *State, p Ptr, t types.Type, v Value) {
 	e.nilCheck(st, p, "store")
+	p = e.narrow(st, p)
 	n := e.L.size(t)
 	if ro := e.obj(st, p.Obj); ro != nil && len(ro.SymSt) > 0 && e.overlapsPending(ro, p, n) {
 		e.storePending(st, p, t, v, n)
